@@ -37,7 +37,9 @@ import (
 )
 
 func init() {
-	log.Root().SetHandler(log.DiscardHandler())
+	if os.Getenv("C05_LOG") == "" { // debugging aid: keep the node's log
+		log.Root().SetHandler(log.DiscardHandler())
+	}
 	kernel.Register(&kernel.Rig{
 		Property: "C05", Name: "R-chain/replicas", Level: "exploration",
 		Rule:        "one run = one seeded chain of 2-10 blocks (every transaction kind of txgen incl. failing calls, token maps, WASM test contracts, multi-signature/upgrade, confidential transactions; optional elections with VotePeriod 2-3 so that the validator set changes) built on proposer P (explicit list or mempool) and executed on 2-4 persistent replicas + 1-3 ephemeral repetitions per block (fresh instances reopened from a pre-block disk image) that differ in storage mode (trie/kv), mempool cache (off / cold / warm with the block's transactions / warm with other transactions / entries parked before their basic check), age (long-lived / reopened before every block), path (CommitBlock fastsync flag), and the tape-decided order in which the signature pre-check workers pass GetTxFromCache; sometimes a Byzantine block carrying an unbalanced confidential transaction is offered to all replicas. Oracle: an honest block is accepted everywhere; the stored TxsResult (gas, state hash, receipt hash, bloom, candidates; trie root among same-mode replicas), receipts+logs, the confidential outputs and key images written, the special transactions recorded and the next validator list are byte-equal after encoding on every replica and repetition; Byzantine blocks get the same verdict everywhere. non-trivial = >= 2 blocks with >= 6 transactions executed on >= 3 instances; distinct = hash of the chain's (state hash, receipt hash) sequence and the replica variants",
@@ -85,6 +87,12 @@ type world struct {
 	smp     sample
 	allKeys []simnode.ValKey
 	closing []*txgen.Replica
+
+	// contract storage life cycles (life.go)
+	life     *txgen.LifeGen
+	lifeMode int  // 0 off, 1 light, 2 heavy
+	reborn   bool // a block re-creating a contract at the address of a destroyed one has been built
+	lifeCnt  [4]int
 }
 
 type sample struct {
@@ -94,6 +102,7 @@ type sample struct {
 	Period   uint64    `json:"vote_period"`
 	Blocks   []string  `json:"blocks"`
 	Byz      []string  `json:"byzantine,omitempty"`
+	Life     string    `json:"storage_life_cycles,omitempty"`
 }
 
 func scratch(c *kernel.Ctx) string {
@@ -171,8 +180,28 @@ func runIn(c *kernel.Ctx) {
 	if c.Tier == kernel.Thorough {
 		nBlocks, maxTxs, nReps = ct.Range(3, 10), ct.Range(3, 16), ct.Range(2, 4)
 	}
+	// contract storage life cycles: their own configuration stream (the
+	// "config" stream keeps its meaning)
+	lt := c.Tape.Fork("life-config")
+	w.lifeMode = lt.Pick(1, 2, 3)
+	if os.Getenv("C05_LIFE") == "off" { // debugging aid: the workload without life cycles
+		w.lifeMode = 0
+	}
+	rebirth := w.lifeMode > 0 && lt.Bool(1, 3)
+	if w.lifeMode == 2 {
+		nBlocks += lt.Int(3)
+		if maxTxs > 6 {
+			maxTxs = 6
+		}
+	}
 	kinds := append(append(append([]txgen.Kind(nil), txgen.AccountKinds...), txgen.WasmKinds...), txgen.UtxoKinds...)
 	w.gen = txgen.New(wl, txgen.Config{Accounts: 3 + ct.Int(4), BlockOnly: true, Utxo: true, Validators: w.allKeys, Kinds: kinds})
+	w.life = txgen.NewLife(w.gen, c.Tape.Fork("life"))
+	w.life.Rebirth = rebirth
+	w.smp.Life = []string{"off", "light", "heavy"}[w.lifeMode]
+	if rebirth {
+		w.smp.Life += "+re-creation"
+	}
 	w.smp.NumCPU = runtime.NumCPU()
 	w.smp.Workers = (runtime.NumCPU() + 3) >> 2
 	w.smp.Period = w.period
@@ -184,6 +213,16 @@ func runIn(c *kernel.Ctx) {
 		v := variant{Name: fmt.Sprintf("V%d", i), IsTrie: ct.Bool(1, 2), Cache: "off", Reopen: ct.Bool(1, 4), FastSync: ct.Bool(1, 3), Gate: ct.Bool(1, 2)}
 		if i == 0 {
 			v.Name, v.Reopen, v.Gate = "P", false, false
+		}
+		if i == nReps && w.lifeMode > 0 {
+			// storage life cycles want both storage modes in the replica set
+			same := true
+			for _, o := range w.smp.Variants {
+				same = same && o.IsTrie == w.smp.Variants[0].IsTrie
+			}
+			if same {
+				v.IsTrie = !w.smp.Variants[0].IsTrie
+			}
 		}
 		if i > 0 && cacheBudget > 0 && !v.Reopen && ct.Bool(2, 3) {
 			v.Cache = cacheModes[1+ct.Int(4)]
@@ -558,6 +597,11 @@ func (w *world) execute(rp *replica, r *txgen.Replica, disk *simdb.Disk, block *
 		return nil, false
 	}
 	if !ok {
+		if w.reborn && r.Spec.IsTrie != w.reps[0].v.IsTrie {
+			// the known storage-mode dependence; the replicas have diverged: the run ends here
+			c.Violate("diverge", keyDestroyedStorage, "%s rejected the block of height %d built by the proposer (storage mode trie=%v) from the same committed chain; the chain has re-created a contract at the address of a self-destructed one", what, block.Height, w.reps[0].v.IsTrie)
+			return nil, false
+		}
 		c.Violate("reject", "reject/honest-block-rejected", "%s rejected the block built by the proposer from the same committed state at height %d", what, block.Height)
 		return nil, false
 	}
@@ -592,10 +636,32 @@ func (w *world) block(n int, viaPool bool) bool {
 			}
 		}
 	}
-	items := gen.Batch(n)
+	var items []*txgen.Item
+	switch w.lifeMode {
+	case 0:
+		items = gen.Batch(n)
+	case 1:
+		items = append(gen.Batch(n), w.life.Batch(w.sched.Int(3))...)
+	default:
+		// heavy: the block is mostly life-cycle steps, in front of or behind the random mix
+		// (generation order = block order: nonces)
+		k := 1 + w.sched.Int(4)
+		if w.sched.Bool(1, 2) {
+			items = w.life.Batch(k)
+			items = append(items, gen.Batch((n+1)/2)...)
+		} else {
+			items = gen.Batch((n + 1) / 2)
+			items = append(items, w.life.Batch(k)...)
+		}
+	}
 	for _, it := range items {
 		if it.BlockOnly {
 			viaPool = false
+		}
+		if it.Kind == txgen.KLifeSpawn {
+			if ch := w.life.M.C[txgen.LifeChildAddr(*it.To, new(big.Int).SetBytes(it.Data[:32]).Uint64())]; ch != nil && !ch.Alive {
+				w.reborn = true
+			}
 		}
 	}
 	// "other" transactions for warm-other caches: valid-looking, not in the block
@@ -636,7 +702,7 @@ func (w *world) block(n int, viaPool bool) bool {
 	}
 	block, parts, err := P.r.Propose(bs)
 	if err != nil {
-		c.HarnessTrouble("propose (%d txs, %s): %v", len(items), path, err)
+		c.HarnessTrouble("propose (%d txs, %s: %s): %v", len(items), path, notes(items), err)
 		return false
 	}
 	if len(block.Data.Txs) != len(items) {
@@ -654,6 +720,7 @@ func (w *world) block(n int, viaPool bool) bool {
 	var ref *observation
 	var all []*observation
 	var names []string
+	var insts []lifeInst
 	for _, rp := range w.reps {
 		o, ok := w.execute(rp, rp.r, rp.disk, block, seen, rp.v.Gate, fmt.Sprintf("replica %s %+v", rp.v.Name, rp.v))
 		w.releaseHeld(rp)
@@ -664,6 +731,7 @@ func (w *world) block(n int, viaPool bool) bool {
 			ref = o
 		}
 		all, names = append(all, o), append(names, rp.v.Name)
+		insts = append(insts, lifeInst{rp.v.Name, rp.r, rp.disk})
 	}
 	// repetitions: fresh instances over the pre-block image of one replica
 	nrep := 1 + w.sched.Int(2)
@@ -687,11 +755,17 @@ func (w *world) block(n int, viaPool bool) bool {
 		}
 		c.Fault("repetition-from-image")
 		all, names = append(all, o), append(names, tmp.v.Name)
+		insts = append(insts, lifeInst{tmp.v.Name, tmp.r, d})
 	}
 	// the oracle: everything equal to the proposer's own execution; the trie
 	// root additionally among instances of the same storage mode
 	for i, o := range all[1:] {
 		if f, ok := compare(ref, o); !ok {
+			if w.reborn && !sameMode(ref, o) {
+				// the known storage-mode dependence; the replicas have diverged: the run ends here
+				c.Violate("diverge", keyDestroyedStorage, "height %d: %s differs between %s (trie=%v) and %s (trie=%v); the chain has re-created a contract at the address of a self-destructed one; block: %s", block.Height, f, names[0], ref.trie, names[i+1], o.trie, describe(items))
+				return false
+			}
 			c.Violate("diverge", "diverge/"+f, "height %d: %s differs between %s and %s (%s vs %s); block: %s", block.Height, f, names[0], names[i+1], ref.fields[f], o.fields[f], describe(items))
 			return false
 		}
@@ -705,12 +779,15 @@ func (w *world) block(n int, viaPool bool) bool {
 		}
 	}
 	receipts := P.r.Receipts(block.Height)
-	committed, err := gen.Committed(block.Height, block.Data.Txs, receipts)
+	committed, err := w.life.Committed(block.Height, block.Data.Txs, receipts)
 	if err != nil {
 		c.HarnessTrouble("ledger: %v", err)
 		return false
 	}
 	gen.L.Mismatches = nil // the value model is C06's business
+	if !w.lifeOracle(block.Height, insts, items) {
+		return false
+	}
 	failed := 0
 	for i, it := range committed {
 		c.Probe("kind/" + string(it.Kind))
@@ -730,6 +807,14 @@ func (w *world) block(n int, viaPool bool) bool {
 	c.Finger(block.Height, ref.fields["state-hash"], ref.fields["receipt-hash"], ref.fields["next-validators"])
 	w.smp.Blocks = append(w.smp.Blocks, fmt.Sprintf("h%d %s: %d txs (%d failed) on %d instances: %s", block.Height, path, len(items), failed, len(all), describe(items)))
 	return true
+}
+
+func notes(items []*txgen.Item) string {
+	s := ""
+	for i, it := range items {
+		s += fmt.Sprintf("[%d %s: %s] ", i, it.Kind, it.Note)
+	}
+	return s
 }
 
 func describe(items []*txgen.Item) string {
